@@ -364,8 +364,9 @@ func GroupByIWithContext[T any, K comparable](iteratee func(ctx context.Context,
 						}
 					},
 					func(ctx context.Context, err error) {
-						destination.ErrorWithContext(ctx, err)
+						// The groups first: destination.Error may run the teardown, which completes them.
 						notifyAll(func(o Observer[T]) { o.ErrorWithContext(ctx, err) })
+						destination.ErrorWithContext(ctx, err)
 
 						groups = sync.Map{}
 					},
